@@ -685,6 +685,49 @@ class SinkUpdate(NodeUpdate):
         ] + user_raise_clauses(self)
 
 
+class SinkToTextfileUpdate(NodeUpdate):
+    """sink_to_textfile.update: a synchronous consumer.  It writes the element once and hands NOTHING back: whatever a consumer
+    returns (other than None) ends up in the list that buffering / timed / latest nodes yield to the loop, and a non-awaitable in
+    that list kills their forwarding coroutine."""
+    cls = 'sink_to_textfile'
+    file = 'streamz/sinks.py'
+    files = ['streamz/sinks.py', 'streamz/core.py']
+    props = ['C01', 'C03', 'C14', 'C08', 'C02']
+    assumptions = ('file.write(s) appends s and returns the number of characters written (trusted)',)
+
+    def make_self(self, I):
+        I.st.ghost['written'] = VTuple([])
+        return {'_fp': VRef(z3.Const('fp', sym.Obj), 'File'), '_end': VElem(z3.Const('end', sym.Elem))}
+
+    def summaries(self):
+        d = NodeUpdate.summaries(self)
+
+        def write(I, recv, args, kwargs):
+            g = I.st.ghost
+            g['written'] = VTuple(g['written'].items + [args[0]])
+            return VInt(z3.Int(sym.fresh_name('chars_written')))
+        d['File.write'] = write
+        return d
+
+    def spec_funcs(self):
+        d = NodeUpdate.spec_funcs(self)
+
+        def binop_default(I, op, a, b):
+            return VElem(sym.user_func('op:' + type(op).__name__, 2)(I.as_elem(a), I.as_elem(b)))
+
+        def concat(I, a, b):
+            return VElem(sym.user_func('op:Add', 2)(I.as_elem(a), I.as_elem(b)))
+        d['binop_default'] = binop_default
+        d['concat'] = concat
+        return d
+
+    def clauses(self):
+        return [Clause('C01.writes_the_element_once_followed_by_the_terminator', ['C01'], when='return',
+                       text='len(written) == 1 and written[0] == x + self._end and emitted == []'),
+                Clause('C03.synchronous_consumer_returns_nothing_to_wait_for', ['C03', 'C14', 'C08', 'C02'], when='return',
+                       text='result is None')]
+
+
 class SinkReleaseWhenDone0(Segment):
     """sink._release_when_done: awaits the consumer's awaitable ..."""
     cls = 'sink'
@@ -741,7 +784,7 @@ class SinkReleaseWhenDone1(SinkReleaseWhenDone0):
                        text='delta == -occ(metadata)')] + self.segment_clauses()
 
 
-ALL += [SinkUpdate, SinkReleaseWhenDone0, SinkReleaseWhenDone1, SinkReleaseWhenDoneFailed]
+ALL += [SinkToTextfileUpdate, SinkUpdate, SinkReleaseWhenDone0, SinkReleaseWhenDone1, SinkReleaseWhenDoneFailed]
 
 
 # --------------------------------------------------------------------------- partition (size flush, timeout flush)
@@ -926,7 +969,36 @@ class PartitionFlushAfterEmit(PartitionNode):
                 ] + self.segment_clauses()
 
 
-ALL += [PartitionUpdate, PartitionUpdateNoTimeout, PartitionFlushTimer, PartitionFlushAfterEmit]
+class PartitionUpdateAfterFlush(PartitionNode):
+    """update() resumed after the size-triggered flush it was waiting for: this update is over.  (Its locals `buffer` /
+    `metadata_buffer` still name the lists that were flushed, no longer the ones in the node: nothing may be decided from them.)"""
+    cls = 'partition'
+    method = 'update'
+    start = 1
+    props = ['C08', 'C01', 'C02', 'C05']
+
+    def make_locals(self, I, selfv):
+        k = z3.Const('key_l', sym.Elem)
+        I.st.ghost['kx'] = VElem(k)
+        n = self._terms[0]
+        bl = z3.Const('flushed_l', sym.SeqElemS)
+        I.st.assume(z3.Length(bl) == n)
+        return {'self': selfv, 'x': VElem(z3.Const('x', sym.Elem)), 'who': VRef(z3.Const('who', sym.Obj), 'Stream'),
+                'metadata': VSeq(z3.Const('md', sym.SeqMdS), K_MDE), 'key': VElem(k),
+                'buffer': I.st.new_list(bl, K_ELEM), 'metadata_buffer': I.st.new_list(z3.Const('flushed_md_l', sym.SeqMdS), K_MDE)}
+
+    def clauses(self):
+        return [Clause('C08.nothing_follows_a_size_flush_in_the_same_update', ['C08', 'C01', 'C02'], when='normal',
+                       text='len(timers) == 0 and len(cancelled) == 0 and emitted == [] and delta == 0 '
+                            'and keys(self._callbacks) == old(keys(self._callbacks)) and keys(self._buffer) == old(keys(self._buffer)) '
+                            'and list(self._buffer[kx]) == old(list(self._buffer[kx]))',
+                       note='in particular no timer is armed for the batch that has just been flushed (partition(1, timeout=t) '
+                            'would deliver a spurious empty partition t later)'),
+                Clause('C08.update_ends_after_its_size_flush', ['C08'], when='yield:1', text='False'),
+                ] + self.segment_clauses()
+
+
+ALL += [PartitionUpdate, PartitionUpdateNoTimeout, PartitionFlushTimer, PartitionFlushAfterEmit, PartitionUpdateAfterFlush]
 
 
 # --------------------------------------------------------------------------- map_async
@@ -1234,8 +1306,26 @@ class MapAsyncWorkerAfterGather(MapAsyncNode):
                        text='delta == -occ(metadata) and emitted == []')] + self.segment_clauses()
 
 
+class MapAsyncWorkerEntry(MapAsyncNode):
+    """work_callback from its start to the first queue.get(): nothing is taken, emitted or released before a job is at hand"""
+    cls = 'map_async'
+    method = 'work_callback'
+    start = 0
+    props = ['C02', 'C05']
+
+    def make_locals(self, I, selfv):
+        return {'self': selfv, 'stop_work': VRef(z3.Const('stop_ev', sym.Obj), 'Event')}
+
+    def clauses(self):
+        return [Clause('C02.worker_starts_by_waiting_for_the_head_job', ['C02', 'C05'], when='yield:1',
+                       text='Q == old(Q) and emitted == [] and delta == 0 and q_get == 1'),
+                Clause('C02.a_stopped_worker_takes_nothing', ['C02', 'C05'], when='return',
+                       text='Q == old(Q) and emitted == [] and delta == 0 and q_get == 0'),
+                ] + self.segment_clauses()
+
+
 from pyvc.sym import VExc
-ALL += [MapAsyncUpdate, MapAsyncInsertJob, MapAsyncInsertJobResumed, MapAsyncWorkerTake, MapAsyncWorkerResult,
+ALL += [MapAsyncWorkerEntry, MapAsyncUpdate, MapAsyncInsertJob, MapAsyncInsertJobResumed, MapAsyncWorkerTake, MapAsyncWorkerResult,
         MapAsyncWorkerFailed, MapAsyncWorkerAfterGather]
 
 
